@@ -253,7 +253,7 @@ def run(ctx):
         r7.inst({'native': b.nid, 'raw_index_arguments_normalised': len(sites), 'ordering_comparisons_between_raw_indices': len(cmps)}, ok=ok, kind=b.nid)
         for bb, op in cmps:
             r7.fail('%s/raw-order/%s' % (b.nid, op), mirq.site(b, bb), 'two index arguments are ordered (%s) before value_to_idx normalises them: a negative index denotes a position from the end, so the order of the raw numbers is not the order of the positions' % op)
-    r7.need(5)
+    r7.need(3)
 
     # ---------------- R15.8
     r8 = ctx.rule('R15.8', 'optional bounds (None = unbounded) are never ordered with the derived Option ordering (None < Some)')
